@@ -7,7 +7,9 @@ import (
 	"os/exec"
 	"path/filepath"
 	"sort"
+	"strconv"
 	"strings"
+	"time"
 
 	"verif/sim"
 )
@@ -90,6 +92,7 @@ func runC04(c *Ctx, faults bool) {
 	remote := w.InitBare("remote.git")
 	u1 := filepath.Join(w.Root, "u1")
 	h := NewHist(w, u1)
+	h.DayOffset = []int{30, 9, 3}[t.Choose(3, "history-age-days")]
 	h.Init()
 	w.MustGit(u1, "remote", "add", "origin", remote)
 	w.ConfigureClone(u1, nil)
@@ -271,6 +274,12 @@ func c04Op(c *Ctx, w *World, h *Hist, u2 string, faults bool) {
 			args = append(args, ref)
 		}
 		args = append(args, fargs...)
+		// --recent adds the tips of branches committed to within
+		// lfs.fetchrecentrefsdays
+		recent := t.Bool(1, 4, "fetch-recent")
+		if recent {
+			args = append(args, "--recent")
+		}
 		out, code := w.Git(u2, args...)
 		if msg, ok := storeIntact(g2); !ok {
 			c.Violation("bad-object-stored", "after %v (exit %d): %s", args, code, msg)
@@ -299,6 +308,44 @@ func c04Op(c *Ctx, w *World, h *Hist, u2 string, faults bool) {
 			if _, ok := local[ptrs[p].Oid]; !ok {
 				c.Violation("object-missing-after-success", "%v exited 0 but %s (%s at %s) is not in local storage", args, ptrs[p].Oid[:12], p, ref)
 				return
+			}
+		}
+		if recent {
+			c.Probe("fetch-recent-ok")
+			// recent = tip committed within lfs.fetchrecentrefsdays (7); only
+			// demanded well inside the window (6 days)
+			var rrefs []string
+			dates, _ := w.GitQ(u2, "for-each-ref", "--format=%(refname) %(committerdate:unix)", "refs/heads", "refs/remotes/origin")
+			for _, ln := range strings.Split(dates, "\n") {
+				fs := strings.Fields(ln)
+				if len(fs) != 2 || fs[0] == "refs/remotes/origin/HEAD" {
+					continue
+				}
+				ts, err := strconv.ParseInt(fs[1], 10, 64)
+				if err == nil && time.Now().Unix()-ts < 6*86400 {
+					rrefs = append(rrefs, fs[0])
+				}
+			}
+			sort.Strings(rrefs)
+			if len(rrefs) > 0 {
+				c.Probe("fetch-recent-has-recent-refs")
+			}
+			for _, r := range rrefs {
+				rp := w.TreePointers(u2, r)
+				var rpaths []string
+				for p := range rp {
+					rpaths = append(rpaths, p)
+				}
+				sort.Strings(rpaths)
+				for _, p := range rpaths {
+					if !f.allows(p) || rp[p].Size == 0 {
+						continue
+					}
+					if _, ok := local[rp[p].Oid]; !ok {
+						c.Violation("object-missing-after-success", "%v exited 0 but %s (%s at the recent branch %s) is not in local storage", args, rp[p].Oid[:12], p, r)
+						return
+					}
+				}
 			}
 		}
 	case 2: // fetch --all
